@@ -91,15 +91,15 @@ func runC12(c *eng.Ctx) {
 		tie := eng.CmpEdges(fn, cnt, cnt, eng.EQ)
 		okTie, okCnt := false, false
 		for _, r := range eng.Returns(fn) {
-			if eng.Bin(token.LSS, id, id)(r.Results[0]) {
+			if eng.RelVal(id, id, eng.LT)(r.Results[0]) {
 				g, _ := eng.GuardedBy(fn, r, tie)
 				okTie = g && len(tie) > 0
 			}
-			if eng.Bin(token.LSS, cnt, cnt)(r.Results[0]) {
+			if eng.RelVal(cnt, cnt, eng.LT)(r.Results[0]) {
 				okCnt = true
 			}
 		}
-		if _, all := allReturns(fn, nil, func(rv []ssa.Value) bool { return eng.Bin(token.LSS, id, id)(rv[0]) }, func(rv []ssa.Value) bool { return eng.Bin(token.LSS, cnt, cnt)(rv[0]) }); !all {
+		if _, all := allReturns(fn, nil, func(rv []ssa.Value) bool { return eng.RelVal(id, id, eng.LT)(rv[0]) }, func(rv []ssa.Value) bool { return eng.RelVal(cnt, cnt, eng.LT)(rv[0]) }); !all {
 			okCnt = false
 		}
 		c.Check(okCnt, "heap orders by assignment count", p.Pos(fn.Pos()), "c[i].assignedCount < c[j].assignedCount", "consumerHeap.Less does not order by assignedCount")
@@ -636,7 +636,7 @@ func ruleGroupBookkeeping(c *eng.Ctx) {
 		for _, r := range eng.Returns(fn) {
 			rv := eng.RetVals(r)
 			if len(rv) == 2 && eng.NilConst(rv[1]) {
-				ok = eng.Bin(token.EQL, eng.Len(eng.Load(membersF, nil)), eng.IntConst(0))(rv[0])
+				ok = eng.RelVal(eng.Len(eng.Load(membersF, nil)), eng.IntConst(0), eng.EQ)(rv[0])
 			}
 		}
 		c.Check(ok, "the group is reported empty exactly when no member is left", p.Pos(fn.Pos()), "return len(c.members) == 0, nil", "RemoveMember's last-member result is not `len(c.members) == 0`: the caller deletes a group that still has members, or keeps empty groups")
